@@ -34,11 +34,18 @@ U8V0 == {"c1", "c2", "c5", "c6", "c7"}
 U8V1 == {"c1", "c4", "c5", "c7"}
 U8Yss == {"c1", "c3", "c6", "c7"}
 
+\* UC: the universe of the concurrency harness (harness/conc: cUniverse)
+UCCerts == {"c1", "c2", "c3", "c4", "c5"}
+UCCertKey == [c \in UCCerts |-> IF c \in {"c3", "c4"} THEN "k2" ELSE "k1"]
+UCV0 == {"c1", "c3", "c5"}
+UCV1 == {"c1", "c3", "c5"}
+UCYss == {"c1", "c4"}
+
 AllOps == {"list", "signers", "sign", "add", "addhard", "remove", "removeall", "lock", "unlock",
-           "close", "forward", "dremove", "dlock", "tick", "signersuse", "new"}
-OpsNoLock == AllOps \ {"lock", "unlock", "dlock", "close", "forward", "signersuse", "new"}
-OpsLock   == AllOps \ {"tick", "forward", "dremove", "signersuse", "new"}
-OpsFault  == AllOps \ {"tick", "dlock", "dremove", "signersuse"}
-OpsMC     == AllOps \ {"signersuse", "new"}
+           "close", "forward", "dremove", "dlock", "tick", "signersuse", "new", "extension"}
+OpsNoLock == AllOps \ {"extension", "lock", "unlock", "dlock", "close", "forward", "signersuse", "new"}
+OpsLock   == AllOps \ {"extension", "tick", "forward", "dremove", "signersuse", "new"}
+OpsFault  == AllOps \ {"extension", "tick", "dlock", "dremove", "signersuse"}
+OpsMC     == AllOps \ {"extension", "signersuse", "new"}
 
 =============================================================================
